@@ -39,7 +39,7 @@ Qed.
 
 (* ---------------------------------------------------------------------- *)
 (* configuration is never changed by the operations *)
-Definition cfg_of (h : th) := (t_unit h, t_mod h, t_local h, t_tzoff h).
+Definition cfg_of (h : th) := (t_unit h, t_mod h, t_local h, t_zone h).
 
 Lemma cfg_rotate : forall h, cfg_of (t_rotate h) = cfg_of h.
 Proof. reflexivity. Qed.
@@ -48,11 +48,11 @@ Lemma cfg_detect : forall h sec, cfg_of (fst (t_detect h sec)) = cfg_of h.
 Proof. intros. unfold t_detect. destruct (_ >=? _); reflexivity. Qed.
 
 (* invariant *)
-Definition files_ok (u : tunit) (md : Z) (local : bool) (tz : Z) (fs : fsys tname) : Prop :=
+Definition files_ok (u : tunit) (md : Z) (local : bool) (tz : zone) (fs : fsys tname) : Prop :=
   forall n c m, tget n fs = Some c -> In m c ->
     period_of_name md n = period_key u md (brokendown local tz (m_ts m)).
 
-Record TI (u : tunit) (md : Z) (local : bool) (tz : Z) (h : th) : Prop := {
+Record TI (u : tunit) (md : Z) (local : bool) (tz : zone) (h : th) : Prop := {
   TI_cfg : cfg_of h = (u, md, local, tz);
   TI_files : files_ok u md local tz (t_fs h);
   TI_open : exists n, t_open h = Some n /\ period_of_name md n = period_key u md (t_last_tm h);
@@ -117,7 +117,7 @@ Proof.
     + apply files_ok_append; [exact Hf|]. cbn. rewrite Hp, Htm, Heq. reflexivity.
     + exists n. split; [first [exact Ho|reflexivity]|exact Hp].
     + exact Htm.
-  - set (cur := brokendown (t_local h) (t_tzoff h) sec).
+  - set (cur := brokendown (t_local h) (t_zone h) sec).
     assert (Hcur : cur = brokendown local tz sec) by (unfold cur; rewrite Hlo, Htz; reflexivity).
     destruct (same_period (t_unit h) (t_mod h) cur (t_last_tm h)) eqn:Esp; cbn [negb].
     + (* same period: keep the file *)
@@ -129,7 +129,7 @@ Proof.
       * exists n. split; [first [exact Ho|reflexivity]|]. rewrite Hp. symmetry. exact Esp.
       * exact Hcur.
     + (* new period: rotate first *)
-      cbn [t_set_last t_rotate t_open t_unit t_last_tm t_fs t_mod t_last_sec t_local t_tzoff].
+      cbn [t_set_last t_rotate t_open t_unit t_last_tm t_fs t_mod t_last_sec t_local t_zone].
       cbn [fst]. split; [|reflexivity].
       constructor; cbn.
       * unfold cfg_of. cbn. congruence.
@@ -312,7 +312,7 @@ Definition ex_tops : list top :=
    TRestart 1715346001; TWrite 0 (ex_m 4 1715349600)].
 
 Example trot_example :
-  let h := t_run (t_init [] 1715345999 UHour 1 true 28800) ex_tops in
+  let h := t_run (t_init [] 1715345999 UHour 1 true (fixed_zone 28800)) ex_tops in
   map (fun f => (fst f, map m_id (snd f))) (t_fs h) =
     [([2024; 5; 10; 22], [4]); ([2024; 5; 10; 21], [2; 3]); ([2024; 5; 10; 20], [1])] /\
   well_timed 1715345999 ex_tops.
@@ -331,19 +331,19 @@ Definition t_write_unrepaired (h : th) (clock : Z) (m : msg) : th :=
     let line := {| m_id := m_id m; m_len := m_len m; m_ts := sec |} in
     let h0 := {| t_fs := fs_append tname_eqb n line (t_fs h); t_open := t_open h; t_unit := t_unit h;
                  t_mod := t_mod h; t_last_sec := t_last_sec h; t_last_tm := t_last_tm h;
-                 t_local := t_local h; t_tzoff := t_tzoff h |} in
+                 t_local := t_local h; t_zone := t_zone h |} in
     let (h1, need) := t_detect h0 sec in
     if need then t_rotate h1 else h1
   end.
 
-Definition t_init_unrepaired (fs : fsys tname) (clock : Z) (u : tunit) (md : Z) (local : bool) (tzoff : Z) : th :=
+Definition t_init_unrepaired (fs : fsys tname) (clock : Z) (u : tunit) (md : Z) (local : bool) (tzoff : zone) : th :=
   t_rotate {| t_fs := fs; t_open := None; t_unit := u; t_mod := md; t_last_sec := clock;
-              t_last_tm := brokendown false tzoff clock; t_local := local; t_tzoff := tzoff |}.
+              t_last_tm := brokendown false tzoff clock; t_local := local; t_zone := tzoff |}.
 
 (* 2024-05-10, UTC, unit hour: handler created at 20:59:59; the 21:00:00 line
    lands in the file named ...T20 *)
 Example unrepaired_write_misfiles :
-  let h := t_init [] 1715374799 UHour 1 false 0 in
+  let h := t_init [] 1715374799 UHour 1 false (fixed_zone 0) in
   let h' := t_write_unrepaired h 0 (ex_m 2 1715374800) in
   map (fun f => (fst f, map m_id (snd f))) (t_fs h') = [([2024; 5; 10; 21], []); ([2024; 5; 10; 20], [2])] /\
   period_key UHour 1 (gmtime 1715374800) = [2024; 5; 10; 21].
@@ -352,8 +352,8 @@ Proof. vm_compute. split; reflexivity. Qed.
 (* zone one hour west of UTC, local mode, unit hour: created and first line at
    2024-07-31 23:00:00 local time; the line lands in ...20240801T00 *)
 Example unrepaired_init_wrong_zone :
-  let h := t_init_unrepaired [] 1722470400 UHour 1 true (-3600) in
+  let h := t_init_unrepaired [] 1722470400 UHour 1 true (fixed_zone (-3600)) in
   let h' := fst (t_write h 1722470400 (ex_m 1 1722470400)) in
   map (fun f => (fst f, map m_id (snd f))) (t_fs h') = [([2024; 8; 1; 0], [1])] /\
-  period_key UHour 1 (localtime (-3600) 1722470400) = [2024; 7; 31; 23].
+  period_key UHour 1 (localtime (fixed_zone (-3600)) 1722470400) = [2024; 7; 31; 23].
 Proof. vm_compute. split; reflexivity. Qed.
